@@ -161,6 +161,7 @@ type Config struct {
 	Perm    []int  `json:"perm,omitempty"`  // registration order of universe types
 	Types   []int  `json:"types,omitempty"` // universe subset used by the generator
 	WeakOn  bool   `json:"weak,omitempty"`  // track weak pointers (C11)
+	Move    int    `json:"move,omitempty"`  // fault: every Move-th new table / archetype moves the storage's list to a new array (0 = never)
 	Profile string `json:"profile,omitempty"`
 }
 
